@@ -562,6 +562,11 @@ def k2_glob(d: int, a: int, b: int, w: int, q: int, ab: int, g: int) -> bool:
         order = L.expected_run(tree, specs, root)
         obs = L.run_main_program_on_suite(tree, root, junit, G.kind_of, glob_rot=g // 2, glob_rev=(g % 2 == 1))
         ok = L.hierarchy_ok(obs, order, root, junit, G.kind_of)
+        if not ok and q == 0 and G.LETTER[a].endswith('*') and G.DIGIT[b].startswith('*') and not c.get('oracle_bug'):
+            # `**` that is not an entire path component: the pattern syntax is documented by examples only ("a single file name
+            # glob pattern"); reading it as `*` (the expectation above) and rejecting it as an invalid suite - nothing run,
+            # exit 3 - both agree with the statement; an escaping exception (before fix 78ff6c7) does not
+            ok = L.hierarchy_ok(obs, None, root, junit, G.kind_of)
     return ob.post(ok)
 
 
